@@ -108,9 +108,23 @@ def validate_witnesses(results):
         same = len(gotf) == len(exp["frames"]) and all((g[:-8] == e[:-8]) if i in bf else (g == e)
                                                        for i, (g, e) in enumerate(zip(gotf, exp["frames"])))
         ok = same and (("exception" in o) == (exp["outcome"] == "exc"))
+        if not ok and w.get("gapfold") and len(gotf) == len(exp["frames"]) == 2 and gotf[0] == exp["frames"][0]:
+            # a wall-clock time inside a DST fold has two instants: the model may pick the other one than glibc.
+            # Tolerated when the frames differ only in the start/end fields (bytes 87..94) and the signature.
+            g, e = gotf[1], exp["frames"][1]
+            if len(g) == len(e) and g[:174] == e[:174] and g[190:-8] == e[190:-8]:
+                ok = True
         if ok:
             good += 1
         else:
-            r["inconclusive"].append("witness mismatch (symbolic vs real): expected %s got %s" % (
-                str(exp)[:300], str({k: o.get(k) for k in ("frames", "exception", "replay_error", "tb")})[:600]))
+            diffs = []
+            for i, (g, e) in enumerate(zip(gotf, exp["frames"])):
+                if g != e:
+                    d = [k for k in range(0, min(len(g), len(e)), 2) if g[k:k + 2] != e[k:k + 2]]
+                    diffs.append((i, len(g) // 2, len(e) // 2, [k // 2 for k in d][:12]))
+            r["inconclusive"].append("witness mismatch (symbolic vs real): op=%s args=%s clock=%s zone=%s frames real/model=%d/%d "
+                                     "differing (frame, len real, len model, byte offsets)=%s real outcome=%s" % (
+                                         w["replay"].get("op"), str(w["replay"].get("args"))[:200], w["replay"].get("clock"),
+                                         w["replay"].get("zone"), len(gotf), len(exp["frames"]), diffs,
+                                         str({k: o.get(k) for k in ("exception", "msg", "replay_error")})[:300]))
     return good
